@@ -114,6 +114,22 @@ def run(ctx):
             why = judge(s, a, sp)
             if why:
                 failing.append(dict(profile=prof, literal=s, impl=a, spec=sp, why=why))
+    # character literals used as immediates (through the parser): the immediate is the character's code point
+    import pipe, re as _re
+    chars = [("'%s'" % c, ord(c)) for c in "AZaz09 !#$%&()*+,-./:;<=>?@[]^_`{|}~\u00e9\u00ff\u0100\u03bb\u20ac\u4e2d\U0001f600"] + \
+            [("'\\n'", 10), ("'\\t'", 9), ("'\\0'", 0), ("'\\\\'", 92), ("'\\''", 39), ("'\\r'", 13)]
+    ccmds = [lib.store_cmd("parse", pipe.single("li t0, %s\n" % lit), "a.s") for lit, _ in chars]
+    ci, cm = lib.run_impl(ctx, ccmds, tag="impl-char"), lib.run_model(ctx, ccmds, tag="model-char")
+    evaluations += len(ccmds)
+    for (lit, val), a, b in zip(chars, ci, cm):
+        if a != b:
+            disagreements.append(dict(profile="debug", cmd="parse li t0, " + lit, text=lit, impl=a[:200], model=b[:200]))
+        m = _re.search(r"N\(iarith addi@\S+ 5@\S+ 0@\S+ (-?\d+)@", a)
+        if "E(" in a and not m:
+            continue          # a literal the lexer rejects is reported, not misread
+        if not m or int(m.group(1)) != val:
+            failing.append(dict(profile="debug", literal=lit, impl=a[:300], spec="some %d" % val,
+                                why="the character literal %s denotes code point %d, the analyzer read %s" % (lit, val, m.group(1) if m else "nothing")))
     # CSR operands: a numeric CSR operand must be read as the same 32-bit value the literal denotes
     # (named CSRs aside): CsrImm::from_str(s) = Imm::from_str(s) as u32
     named = set(n.lower() for n in names)
